@@ -194,6 +194,27 @@ def probe(seed):
         deal.enable()
     return bad
 
+def shared_contract():
+    # C12-F1 (root cause C09-F1): a precondition OBJECT shared between an implementation and an unrelated function
+    positive = deal.pre(lambda x: x > 0)
+    @deal.dispatch
+    def f(x): raise NotImplementedError
+    @f.register
+    @positive
+    def impl(x): return "impl"
+    @f.register
+    def fallback(x): return "fallback"
+    out = {}
+    def call(x):
+        try: return f(x)
+        except deal.PreContractError: return "PreContractError"
+        except BaseException as e: return type(e).__name__
+    out["before"] = [call(1), call(-1)]
+    @positive
+    def unrelated(x): return x
+    out["after"] = [call(1), call(-1)]
+    return out
+
 def nested(seed):
     # a dispatched call made from inside a precondition of an implementation that is itself being dispatched (deal switches contracts
     # off while a validator runs; dispatch works with contracts off): the nested call still runs the first implementation whose guard
@@ -241,6 +262,14 @@ def nested(seed):
 def run(ctx, fr, model_available=True):
     base_scn.run(_me, ctx, fr, model_available)
     from ..harness import impl
+    r = impl.run_impl('pyexec.py', {'src': WRAPPED_SRC, 'calls': [['shared_contract', []]]})[0]
+    fr.evaluations += 4; fr.samples.append({'family': 'precondition object shared with an unrelated function', 'result': r})
+    if not isinstance(r, dict) or r.get('before') != ['impl', 'fallback']:
+        fr.violations.append({'scenario': {'family': 'shared-contract-object'}, 'impl': r, 'signature': None,
+                              'what': f'dispatch over an implementation guarded by a named precondition object: expected impl / fallback, got {r}'})
+    elif r.get('after') != ['impl', 'fallback']:
+        fr.violations.append({'scenario': {'family': 'shared-contract-object'}, 'impl': r, 'signature': 'shared_contract_object_origin',
+                              'what': f'after the same precondition object was applied to an unrelated function the mismatch of the first implementation is no longer recognised: f(1), f(-1) = {r.get("after")}, expected impl / fallback'})
     r = impl.run_impl('pyexec.py', {'src': WRAPPED_SRC, 'calls': [['nested', [ctx.seed]]]})[0]
     fr.evaluations += 30 * 26; fr.add_nontrivial({'nested_probe': ctx.seed})
     fr.samples.append({'family': 'dispatch from inside a precondition of a dispatched implementation', 'deviations': r if isinstance(r, dict) else len(r)})
